@@ -7,8 +7,15 @@ package redis
 import (
 	"context"
 	"fmt"
+	"hash/fnv"
+	"math"
+	"reflect"
+	"sort"
+	"strings"
+	"sync"
 	"sync/atomic"
 	"testing"
+	"time"
 
 	"github.com/alicebob/miniredis/v2"
 	"github.com/alicebob/miniredis/v2/server"
@@ -23,11 +30,235 @@ type c01RedisTarget struct {
 	hits     *atomic.Int64
 	mr       *miniredis.Miniredis
 	nodes    map[string]*Redis
+	vias     map[string][]string
+}
+
+// The wrapper has one method per Redis command, each with its own breaker call: the benign
+// outcomes must be benign through EVERY one of them.  All calls of one node (= one breaker) of a
+// behaviour go through the same command, chosen from a catalogue by (behaviour, node), so that a
+// burst of benign outcomes lands on one command's breaker call.
+//   canceled: every exported ...Ctx method whose arguments can be built by type and which, on the
+//             unchanged calling convention, answers a cancelled context with context.Canceled;
+//   rednil:   the commands that hand redis.Nil to the caller for an absent key / member.
+// The catalogue is calibrated once per process on throw-away clients (own breakers): calibration
+// looks only at the returned error, never at the breaker, so a changed predicate cannot hide in it.
+type c01Cmd struct {
+	name string
+	call func(r *Redis, ctx context.Context, key string) error
+}
+
+var (
+	c01CatOnce             sync.Once
+	c01Canceled, c01RedNil []c01Cmd
+)
+
+func c01Arg(t reflect.Type, ctx context.Context, key string) (reflect.Value, bool) {
+	switch {
+	case t == reflect.TypeOf((*context.Context)(nil)).Elem():
+		return reflect.ValueOf(ctx), true
+	case t == reflect.TypeOf(time.Duration(0)):
+		return reflect.ValueOf(time.Second), true
+	}
+	switch t.Kind() {
+	case reflect.String:
+		return reflect.ValueOf(key).Convert(t), true
+	case reflect.Int, reflect.Int64, reflect.Int32, reflect.Uint64, reflect.Uint:
+		return reflect.ValueOf(1).Convert(t), true
+	case reflect.Float64:
+		return reflect.ValueOf(1.0), true
+	case reflect.Bool:
+		return reflect.ValueOf(false), true
+	case reflect.Interface:
+		if t.NumMethod() == 0 {
+			return reflect.ValueOf("v").Convert(reflect.TypeOf("")), true
+		}
+	case reflect.Slice:
+		if e, ok := c01Arg(t.Elem(), ctx, key); ok {
+			sl := reflect.MakeSlice(t, 1, 1)
+			if t.Elem().Kind() == reflect.Interface {
+				sl.Index(0).Set(e)
+			} else {
+				sl.Index(0).Set(e.Convert(t.Elem()))
+			}
+			return sl, true
+		}
+	case reflect.Map:
+		if t.Key().Kind() == reflect.String && t.Elem().Kind() == reflect.String {
+			m := reflect.MakeMap(t)
+			m.SetMapIndex(reflect.ValueOf("f").Convert(t.Key()), reflect.ValueOf("v").Convert(t.Elem()))
+			return m, true
+		}
+	}
+	return reflect.Value{}, false
+}
+
+func c01Reflected(m reflect.Method) (func(r *Redis, ctx context.Context, key string) error, bool) {
+	ft := m.Type
+	errT := reflect.TypeOf((*error)(nil)).Elem()
+	if ft.NumOut() == 0 || ft.Out(ft.NumOut()-1) != errT || ft.NumIn() < 2 ||
+		ft.In(1) != reflect.TypeOf((*context.Context)(nil)).Elem() {
+		return nil, false
+	}
+	for i := 1; i < ft.NumIn(); i++ {
+		if _, ok := c01Arg(ft.In(i), context.Background(), "k"); !ok {
+			return nil, false
+		}
+	}
+	return func(r *Redis, ctx context.Context, key string) error {
+		in := []reflect.Value{reflect.ValueOf(r)}
+		for i := 1; i < ft.NumIn(); i++ {
+			v, _ := c01Arg(ft.In(i), ctx, key)
+			in = append(in, v)
+		}
+		var out []reflect.Value
+		if ft.IsVariadic() {
+			out = m.Func.CallSlice(in)
+		} else {
+			out = m.Func.Call(in)
+		}
+		if e := out[len(out)-1]; !e.IsNil() {
+			return e.Interface().(error)
+		}
+		return nil
+	}, true
+}
+
+// c01Probe stands in for the breaker of a throw-away calibration client and only counts whether
+// a command goes through a breaker at all (a few wrapper methods, e.g. ScriptLoadCtx, do not:
+// they record nothing, so the statement's clauses about recorded outcomes do not apply to them).
+type c01Probe struct{ n atomic.Int64 }
+
+func (p *c01Probe) Name() string { return "c01probe" }
+func (p *c01Probe) Allow() (breaker.Promise, error) {
+	p.n.Add(1)
+	return breaker.New().Allow()
+}
+func (p *c01Probe) Do(req func() error) error { p.n.Add(1); return req() }
+func (p *c01Probe) DoWithAcceptable(req func() error, _ breaker.Acceptable) error {
+	p.n.Add(1)
+	return req()
+}
+func (p *c01Probe) DoWithFallback(req func() error, _ func(error) error) error {
+	p.n.Add(1)
+	return req()
+}
+func (p *c01Probe) DoWithFallbackAcceptable(req func() error, _ func(error) error, _ breaker.Acceptable) error {
+	p.n.Add(1)
+	return req()
+}
+
+// c01Try runs one call on a throw-away client; ok only if it came back in time without a panic.
+func c01Try(addr string, f func(r *Redis) error) (err error, ok bool) {
+	done := make(chan struct{})
+	go func() {
+		defer close(done)
+		defer func() {
+			if recover() != nil {
+				ok = false
+			}
+		}()
+		err, ok = f(New(addr)), true
+	}()
+	select {
+	case <-done:
+		return
+	case <-time.After(2 * time.Second):
+		return nil, false
+	}
+}
+
+func c01Catalogue(addr string) {
+	c01CatOnce.Do(func() {
+		cctx, cancel := context.WithCancel(context.Background())
+		cancel()
+		rt := reflect.TypeOf(&Redis{})
+		for i := 0; i < rt.NumMethod(); i++ {
+			m := rt.Method(i)
+			if !strings.HasSuffix(m.Name, "Ctx") {
+				continue
+			}
+			call, ok := c01Reflected(m)
+			if !ok {
+				continue
+			}
+			good := true
+			for rep := 0; rep < 2 && good; rep++ { // twice: the answer must not depend on a warm connection
+				probe := &c01Probe{}
+				err, ok := c01Try(addr, func(r *Redis) error { r.brk = probe; return call(r, cctx, "c01:cal:absent") })
+				good = ok && err == context.Canceled && probe.n.Load() == 1
+			}
+			if good {
+				c01Canceled = append(c01Canceled, c01Cmd{m.Name, call})
+			}
+		}
+		for _, c := range []c01Cmd{
+			{"HGet", func(r *Redis, _ context.Context, k string) error { _, e := r.HGet(k, "f"); return e }},
+			{"ZScore", func(r *Redis, _ context.Context, k string) error { _, e := r.ZScore(k, "m"); return e }},
+			{"ZRank", func(r *Redis, _ context.Context, k string) error { _, e := r.ZRank(k, "m"); return e }},
+			{"ZRevRank", func(r *Redis, _ context.Context, k string) error { _, e := r.ZRevRank(k, "m"); return e }},
+			{"LPop", func(r *Redis, _ context.Context, k string) error { _, e := r.LPop(k); return e }},
+			{"RPop", func(r *Redis, _ context.Context, k string) error { _, e := r.RPop(k); return e }},
+			{"SPop", func(r *Redis, _ context.Context, k string) error { _, e := r.SPop(k); return e }},
+			{"ZScoreCtx", func(r *Redis, c context.Context, k string) error { _, e := r.ZScoreCtx(c, k, "m"); return e }},
+			{"ZRevRankCtx", func(r *Redis, c context.Context, k string) error { _, e := r.ZRevRankCtx(c, k, "m"); return e }},
+			{"ZRankCtx", func(r *Redis, c context.Context, k string) error { _, e := r.ZRankCtx(c, k, "m"); return e }},
+		} {
+			c := c
+			probe := &c01Probe{}
+			if err, ok := c01Try(addr, func(r *Redis) error { r.brk = probe; return c.call(r, context.Background(), "c01:cal:absent") }); ok && err == red.Nil && probe.n.Load() == 1 {
+				c01RedNil = append(c01RedNil, c)
+			}
+		}
+		sort.Slice(c01Canceled, func(i, j int) bool { return c01Canceled[i].name < c01Canceled[j].name })
+	})
+}
+
+func (t *c01RedisTarget) via(name, cmd string) {
+	if t.vias == nil {
+		t.vias = map[string][]string{}
+	}
+	for _, c := range t.vias[name] {
+		if c == cmd {
+			return
+		}
+	}
+	t.vias[name] = append(t.vias[name], cmd)
+}
+
+func (t *c01RedisTarget) pick(cat []c01Cmd, name string, rep int) c01Cmd {
+	h := fnv.New32a()
+	h.Write([]byte(name))
+	return cat[(t.idx*c01Replicas+rep+int(h.Sum32()%7919))%len(cat)]
 }
 
 func (t *c01RedisTarget) Disable(string) { panic("c01 redis driver: disable is not part of the integration table") }
 
+// c01Replicas: every node of a behaviour exists c01Replicas times (own client, own breaker, own
+// choice of commands); each call is made on all of them and the first observation that differs
+// from the specification's answer is the one reported.
+const c01Replicas = 8
+
 func (t *c01RedisTarget) Do(name string, c verifc01.Call) (o verifc01.Obs) {
+	eng := verifc01.Get()
+	var asked0 []float64
+	for rep := 0; rep < c01Replicas; rep++ {
+		or := t.do1(fmt.Sprintf("%s#%d", name, rep), rep, c)
+		asked := eng.TakeAsked()
+		if rep == 0 {
+			o, asked0 = or, asked
+		}
+		off := or.Ret != c.Ret || (len(asked) > 0) != c.Con || len(asked) > 1 ||
+			(c.Con && math.Abs(asked[0]*float64(c.Den)-float64(c.Num)) > 1e-9*float64(c.Den))
+		if off {
+			eng.PutAsked(asked)
+			return or
+		}
+	}
+	eng.PutAsked(asked0)
+	return o
+}
+
+func (t *c01RedisTarget) do1(name string, rep int, c verifc01.Call) (o verifc01.Obs) {
 	r := t.nodes[name]
 	if r == nil {
 		addr := t.up
@@ -47,11 +278,15 @@ func (t *c01RedisTarget) Do(name string, c verifc01.Call) (o verifc01.Obs) {
 	case "nil":
 		err = r.Set(key+":str", "v")
 	case "rednil":
-		_, err = r.HGet(key+":missing", "f")
+		cmd := t.pick(c01RedNil, name, rep)
+		t.via(name, cmd.name)
+		err = cmd.call(r, context.Background(), key+":missing")
 	case "canceled":
 		ctx, cancel := context.WithCancel(context.Background())
 		cancel()
-		_, err = r.HGetCtx(ctx, key+":missing", "f")
+		cmd := t.pick(c01Canceled, name, rep)
+		t.via(name, cmd.name)
+		err = cmd.call(r, ctx, key+":missing")
 	case "other", "down":
 		// a string where a hash is expected: WRONGTYPE (or a dial error when the node is down)
 		if r.Addr == t.up {
@@ -76,6 +311,7 @@ func (t *c01RedisTarget) Do(name string, c verifc01.Call) (o verifc01.Obs) {
 		o.Ret = fmt.Sprintf("other:%v", err)
 	}
 	if o.Ret == "unavail" {
+		fmt.Printf("c01 redis driver: case %d node %s rejected a call; benign outcomes of this node went through %v\n", t.idx, name, t.vias[name])
 		o.Req = int(t.hits.Load()) // nothing may have reached the server
 	} else {
 		o.Req = 1
@@ -101,6 +337,17 @@ func TestVerifC01Redis(t *testing.T) {
 		hits.Add(1)
 		return false
 	})
+	c01Catalogue(up.Addr())
+	if len(c01Canceled) < 60 || len(c01RedNil) < 5 {
+		t.Fatalf("c01 redis driver: command catalogue too small (canceled %d, rednil %d)", len(c01Canceled), len(c01RedNil))
+	}
+	names := []string{}
+	for _, c := range c01Canceled {
+		names = append(names, c.name)
+	}
+	fmt.Printf("c01 redis catalogue (canceled): %v\n", names)
+	t.Logf("c01 redis catalogue: %d ...Ctx commands answer a cancelled context, %d commands hand out redis.Nil", len(c01Canceled), len(c01RedNil))
+	hits.Store(0)
 	verifc01.Run(t, func(i int) verifc01.Target {
 		return &c01RedisTarget{idx: i, up: up.Addr(), down: downAddr, hits: &hits, mr: up}
 	})
